@@ -195,6 +195,7 @@ class SimNet:
         self.drop_tx = None  # (tx_index, receiver-name or None): the single forced loss (C07)
         self.b2b_all = False  # C16: duplicate every delivery back to back
         self.b2b_filter = None
+        self.content_keyed = False
         self.corruptor = None  # callable(data, rng) -> data
         self.on_tx = None  # observer(tx)
         self.on_rx = None  # observer(t, sock, data, src, tx_idx, copy)
@@ -262,7 +263,15 @@ class SimNet:
                 d["cor"] = r.randrange(1 << 30)
             return d
 
-        dec = world.decide(f"net/{ssock.owner.name}>{rsock.label}", draw)
+        if self.content_keyed:
+            # decisions keyed by what is sent, not by how many datagrams were sent before (metamorphic runs stay
+            # aligned even when one run transmits an extra datagram)
+            import hashlib
+
+            hh = hashlib.blake2b(repr((tx.t, tx.data)).encode(), digest_size=6).hexdigest()
+            dec = world.decide(f"net/{ssock.owner.name}>{rsock.label}/{hh}", draw)
+        else:
+            dec = world.decide(f"net/{ssock.owner.name}>{rsock.label}", draw)
         if self.drop_tx is not None and self.drop_tx[0] == tx.idx and self.drop_tx[1] in (None, rsock.owner.name):
             self.fault_counts["forced_drop"] += 1
             world.log("drop", tx.idx, rsock.label)
